@@ -23,6 +23,10 @@ for d in sorted(os.listdir(root)):
     meta = json.load(open(os.path.join(p, "meta.json")))
     res = json.load(open(os.path.join(p, "result.json"))) if os.path.exists(os.path.join(p, "result.json")) else {}
     conf = json.load(open(os.path.join(p, "confirm.json"))) if os.path.exists(os.path.join(p, "confirm.json")) else {}
+    if meta.get("obsolete"):
+        rows.append("| %s | %s | %s | %s | %s |" % (d, short(meta.get("summary", ""), 230).replace("|", "\\|"), short(meta.get("needs_to_manifest", ""), 170).replace("|", "\\|"),
+                                                 "yes" if conf.get("confirmed") else "?", "obsolete: " + short(meta["obsolete"], 200)))
+        continue
     by = []
     for k, v in sorted(res.items()):
         if v["exit"] == 1 and v["violation_lines"]:
